@@ -122,12 +122,13 @@ structure WdInv (s : WD) : Prop where
   closed : s.closedByWD = true → s.cycleDwrs = s.R + 1 ∧ s.cycleTimers = s.R + 1 ∧ s.answeredAtClose = false ∧
       s.gone = true ∧ (s.pc = .sleeping ∨ s.pc = .stopped)
   le : s.cycleDwrs ≤ s.R + 1
+  dwacLe : s.dwac ≤ s.cap
 
 theorem WdInv_init (R cap : Nat) (dr : Bool) (hc : 1 ≤ cap) : WdInv (WD.init R cap dr) := by
   constructor <;> simp [WD.init, hc]
 
 macro "winv_close" h:ident : tactic => `(tactic| (
-  obtain ⟨h0, h1, h2, h3, h4, h5, h6⟩ := $h
+  obtain ⟨h0, h1, h2, h3, h4, h5, h6, h7⟩ := $h
   constructor <;> simp_all <;> grind))
 
 theorem WdInv_step (s s' : WD) (e : WdEv) (h : WdInv s) (hs : s.step e = some s') : WdInv s' := by
